@@ -278,6 +278,14 @@ impl CachedTimeZone {
         crate::verif::point("zi.new.open");
         let mut file =
             File::open(path).map_err(|e| Error::io(e).path(path))?;
+        // The last modified time must be read *before* the data. If the
+        // file is rewritten in place in between, we then pair newer data
+        // with an older timestamp, and the next revalidation re-reads the
+        // file. The other order would pair stale data with the newer
+        // timestamp, and revalidation would keep the stale data forever.
+        #[cfg(jiff_verif)]
+        crate::verif::point("zi.new.stat");
+        let last_modified = util::fs::last_modified_from_file(path, &file);
         let mut data = vec![];
         #[cfg(jiff_verif)]
         crate::verif::point("zi.new.read");
@@ -285,9 +293,6 @@ impl CachedTimeZone {
         let tz = TimeZone::tzif(&info.inner.original, &data)
             .map_err(|e| e.path(path))?;
         let name = info.clone();
-        #[cfg(jiff_verif)]
-        crate::verif::point("zi.new.stat");
-        let last_modified = util::fs::last_modified_from_file(path, &file);
         let expiration = Expiration::after(ttl);
         Ok(CachedTimeZone { tz, name, expiration, last_modified })
     }
